@@ -253,7 +253,7 @@ def E2() -> bool:
 
 
 def _e1_shards(tier):
-    cfgs = [{"N": 4, "D": 3, "max_lines": 8}, {"N": 3, "D": 3, "max_lines": 8, "inline_remote": 1, "same_side": 1}] if tier == "quick" else [{"N": 5, "D": 4, "max_lines": 10, "switches": 4}, {"N": 4, "D": 3, "max_lines": 9, "idtext": 1}, {"N": 4, "D": 3, "max_lines": 9, "exc": 3}, {"N": 4, "D": 3, "max_lines": 9, "inline_remote": 1, "same_side": 1}]
+    cfgs = [{"N": 4, "D": 3, "max_lines": 8}, {"N": 3, "D": 3, "max_lines": 8, "inline_remote": 1, "same_side": 1}] if tier == "quick" else [{"N": 5, "D": 3, "max_lines": 9, "switches": 3}, {"N": 4, "D": 3, "max_lines": 9, "idtext": 1}, {"N": 4, "D": 3, "max_lines": 9, "exc": 3}, {"N": 4, "D": 3, "max_lines": 9, "inline_remote": 1, "same_side": 1}]
     out = []
     for base in cfgs:
         out += [dict(base, prefix=p) for p in enumerate_prefixes(body_E1, "X", {}, base, 4)]
@@ -279,7 +279,7 @@ OBLIGATIONS = [
        bounds={"quick": "levels of depth <= 1 with components 1..9 (bytes and text ids) and depth <= 2 with components 1..30 (bytes ids); counter 0..max-2", "thorough": "additionally text ids at depth <= 2, components 1..30"}),
     Ob("E1", E1, body_E1, "X", desc="hand-off programs (multi-hop, any point/depth), one file per side, every merge interleaving: one task, remote sub-tree at the reserved position", functions=["Action.serialize_task_id", "Action.continue_task", "FileDestination.__call__", "Parser.parse_stream", "Task.add"],
        shards=_e1_shards, twin=[{"N": 4, "D": 3, "max_lines": 8, "twin_label": "interleaved-merge"}], timeout={"quick": 100, "thorough": 1500},
-       bounds={"quick": "programs <= 4 ops with >= 1 hand-off, depth <= 3, <= 8 lines in total, all merges of the sides' files with <= 3 voluntary side switches (per-file order kept); <= 3 ops where the continuation runs in a context that already has a current action", "thorough": "<= 5 ops / 10 lines, <= 4 switches; text ids; failing remote side"}),
+       bounds={"quick": "programs <= 4 ops with >= 1 hand-off, depth <= 3, <= 8 lines in total, all merges of the sides' files with <= 3 voluntary side switches (per-file order kept); <= 3 ops where the continuation runs in a context that already has a current action", "thorough": "<= 5 ops / 9 lines; text ids; failing remote side; inline continuations with <= 4 ops"}),
     Ob("E2", E2, body_E2, "X", desc="one preserve_context callable raced by 2-3 threads at line granularity: f runs exactly once, the others get TooManyCalls, result/exception passes through", functions=["preserve_context", "restore_eliot_context", "Action.continue_task"],
        shards={"quick": [{"threads": 2, "P": 3}], "thorough": [{"threads": 2, "P": 1000}, {"threads": 3, "P": 3}]}, twin=[{"threads": 2, "P": 3, "twin_label": "raced"}], timeout={"quick": 100, "thorough": 900},
        bounds={"quick": "2 threads, <= 3 preemptions, yield at every line of restore_eliot_context", "thorough": "2 threads all schedules; 3 threads <= 3 preemptions"}),
